@@ -161,6 +161,13 @@ def random_config(rng, closed=True):
                 poly[short] = max(poly[short], 0.5)
             else:
                 poly[key] = 0.5
+    # a descriptor missing from the table has reactivity 0
+    if mode == 'zeros' and rng.random() < 0.5:
+        live = {norm(k + l + str(o)) for (k, l, o) in fams[0]}
+        for key in list(poly):
+            if norm(key) not in live and rng.random() < 0.5:
+                del poly[key]
+        feats_missing = True
     fragr = {}
     if rng.random() < 0.4:
         for d in all_d:
@@ -169,7 +176,20 @@ def random_config(rng, closed=True):
                 tbl = {p: rng.choice([0.0, 0.5, 1.0]) for p in partners}
                 if not any(v > 0 for v in tbl.values()):
                     tbl[rng.choice(partners)] = 1.0
+                for p in [p for p, v in tbl.items() if v == 0.0]:
+                    if rng.random() < 0.5:
+                        del tbl[p]     # missing key = conditional reactivity 0
                 fragr[d] = tbl
+        # tables may also name descriptors that are NOT complementary to the site (other order, other
+        # kind, other label); they are not candidates, whatever weight they carry
+        for d in all_d:
+            if d[0] in '<>' and rng.random() < 0.4:
+                comp = {'<': '>', '>': '<'}[d[0]] + d[1:]
+                fragr[d] = {comp: rng.choice([0.5, 1.0])}
+        for d, tbl in fragr.items():
+            others = [x for x in all_d if x not in tbl and not complementary(d, x)]
+            for x in rng.sample(others, min(len(others), rng.choice([0, 1, 2]))):
+                tbl[x] = rng.choice([0.5, 1.0, 5.0])
     masses = None
     if not all_atom or rng.random() < 0.3:
         masses = {name: float(rng.choice([10, 44, 72, 104.5])) for name in frags}
